@@ -68,7 +68,13 @@ def gen_batch(rng, thorough: bool, max_records: int) -> tuple[dict, dict]:  # no
         # instants around the end of daylight saving time 2021 in Europe (01:00 UTC) and the US (06:00 UTC): expressed in those zones the
         # wall-clock times repeat, which must not matter
         t0 = rng.choice((1635642000000, 1636264800000))
-        ts = [t0 + rng.randint(-3600_000, 3600_000) for _ in range(n)]
+        ts = []
+        while len(ts) < n:
+            t = t0 + rng.randint(-3600_000, 3600_000)
+            ts.append(t)
+            if rng.random() < 0.5:
+                ts.append(t + 3600_000 if t < t0 else t - 3600_000)  # the same wall-clock time in the other fold
+        ts = ts[:n]
     elif tkind == "boundary":
         # timestamp deltas at the byte-length boundaries of the zig-zag varlong
         t0 = 1 << 45
